@@ -2,6 +2,7 @@ import Driver.Proto
 import BedVerif.Model.Lapper
 import BedVerif.Lemmas.FastCover
 import BedVerif.Lemmas.FastCount
+import BedVerif.Lemmas.FastDepth
 /-!
 Near-linear-time judging of LARGE Lapper cases (C16–C20): histories with more than `threshold`
 intervals. The executable model (`Lapper.run`) and the position-enumerating specs are quadratic or
@@ -341,7 +342,9 @@ def c20? (force : Bool) (inp obs : List String) : Option Verdict :=
     | none => some (vBad "unparsable C20 case")
     | some (none, _) => some (vFail s!"depth() panicked ({h.size} intervals supplied)")
     | some (some runs, _) =>
-      let want := depthRLE (seOf h.stored)
+      -- `fastDepth'` (three merge sorts and one linear sweep) is PROVED to be the unique run list satisfying the spec:
+      -- `IsDepthRLE l runs ↔ runs = fastDepth' l` (Lemmas/FastDepth.lean)
+      let want := (fastDepth' ((seOf h.stored).toList.map (fun (y : SE) => (⟨y.1, y.2, ()⟩ : Iv Unit)))).toArray
       if runs != want then
         let i := firstDiff runs want
         some (vFail s!"depth() gives {runs.size} runs, the run-length encoding of the pointwise depth has {want.size}; first difference at index {i}: depth() {showIvsA (runs.extract i (i+3))}, expected {showIvsA (want.extract i (i+3))}")
